@@ -132,6 +132,14 @@ Theorem C14_triple_vector_refused : forall negpow rk inv spow first rest,
   eval_error (eval_product negpow rk inv spow first rest).
 Proof. exact triple_vector_refused. Qed.
 
+(* ... and with operands of ANY shape around and in between: as soon as the running product (a vector) has been multiplied by a
+   vector, a chain that still contains a vector factor never returns -- a*b*c, a*b*2*c, a*b*M*c, a*M*b*c, ... *)
+Theorem C14_dot_then_vector_refused : forall negpow rk inv spow result flag b rest,
+  is_vector result = true -> is_vector b = true ->
+  Exists (fun p : bool * val => fst p = true /\ is_vector (snd p) = true) rest ->
+  exists e, product_loop negpow rk inv spow result flag ((true, b) :: rest) = Raise e.
+Proof. exact dot_then_vector_refused. Qed.
+
 (* ---------------------------------------------------------------------------------------------------------
    Third sentence: negative matrix powers while disabled. *)
 Theorem C14_negative_power_disabled_error : forall rk inv spow a ke e,
